@@ -161,6 +161,34 @@ func (m *lMachine) c19GenOp(rt *rapid.T, i int, k string) lOp {
 		op.Pair = rapid.IntRange(0, len(cfg.Denoms)-1).Draw(rt, lbl("denom"))
 		op.Extra = rapid.SampledFrom([]int64{1000000, 1000000, 2500000, 1, 123456789012, 0}).Draw(rt, lbl("price"))
 		op.Buy = rapid.IntRange(0, 3).Draw(rt, lbl("active")) > 0
+		if rapid.IntRange(0, 3).Draw(rt, lbl("unlist")) == 0 {
+			op.Extra, op.Buy = 0, false // no usable price at all for this denomination
+		}
+		// a swap-fee gauge that holds fees, on a pair with several pools: its fee transfer needs both prices while the
+		// distribution needs one; steer towards taking exactly one of them away
+		for _, g := range m.c.App.Rewardskeeper.GetAllGauges(m.c.Ctx) {
+			if !g.ForSwapFee || !g.DepositAmount.IsPositive() {
+				continue
+			}
+			pool, ok := m.k.GetPool(m.c.Ctx, g.AppId, g.GetLiquidityMetaData().PoolId)
+			if !ok || len(m.k.GetPoolsByPair(m.c.Ctx, g.AppId, pool.PairId)) < 2 {
+				continue
+			}
+			if rapid.IntRange(0, 1).Draw(rt, lbl("steer")) == 0 {
+				pair, _ := m.k.GetPair(m.c.Ctx, g.AppId, pool.PairId)
+				d := pair.BaseCoinDenom
+				if rapid.Bool().Draw(rt, lbl("side")) {
+					d = pair.QuoteCoinDenom
+				}
+				for j, x := range cfg.Denoms {
+					if x == d {
+						op.Pair = j
+					}
+				}
+				op.Extra, op.Buy = 0, false
+			}
+			break
+		}
 	case "gauge":
 		if len(m.pools) == 0 {
 			return lOp{K: "block", Dt: 5}
@@ -240,7 +268,19 @@ type c19Snap struct {
 }
 
 func (m *lMachine) c19AllDenoms() []string {
-	return append(append([]string{}, c19RewardDenoms...), "ucmdx")
+	out := append(append([]string{}, c19RewardDenoms...), "ucmdx")
+	for _, a := range m.cs.Cfg.Apps {
+		if a.DistrDenom != "" {
+			dup := false
+			for _, d := range out {
+				dup = dup || d == a.DistrDenom
+			}
+			if !dup {
+				out = append(out, a.DistrDenom)
+			}
+		}
+	}
+	return out
 }
 
 // poolValues: value of every active farmer's position in one pool, the way the property defines farmed value:
@@ -372,6 +412,12 @@ func (m *lMachine) c19Post(i int, pre *c19Snap, values func(app, pool uint64) ma
 				alloc = was.DepositAmount.Amount
 			}
 			paid = alloc // upper bound of what it may hand to farmers
+			if alloc.IsPositive() {
+				m.r.Class("swap-fee-gauge-distribution")
+				if dTrig == 0 {
+					m.r.Class("swap-fee-gauge-distributed-but-epoch-not-booked")
+				}
+			}
 		}
 		if !alloc.IsPositive() {
 			continue
@@ -527,6 +573,10 @@ func TestC19_gauges(t *testing.T) {
 		r.Guard(func() {
 			r.Eval()
 			lc := &lCase{Cfg: genLCfg(rt)}
+			for i := range lc.Cfg.Apps {
+				// fees collected in a pair denomination become distributable without the 150-block conversion
+				lc.Cfg.Apps[i].DistrDenom = rapid.SampledFrom([]string{"", "uaaa", "ubbb", "uccc"}).Draw(rt, fmt.Sprintf("distrdenom%d", i))
+			}
 			m := newLMachine(rt, r, "C19", lc)
 			n := rapid.IntRange(20, 70).Draw(rt, "nops")
 			for i := 0; i < n; i++ {
